@@ -32,6 +32,7 @@ func checkC14(r *Report, p *Program) {
 	discoveryDefaults(r, p, "R14.11")
 	tombstonesAreValues(r, p, "R14.12")
 	getObjectTable(r, p, "R14.13")
+	operandFromTheLoop(r, p, "R14.14")
 	relatedNotifyTable(r, p, "R14.9")
 }
 
